@@ -115,11 +115,13 @@ class Gen:
             n = self.fresh("c"); L.append(f"hold {n} {s} {self.small()}"); self.add_cell(n, self.t(s)); self.ustream[n] = self.ident.get(s, s)
         elif kind == "holdlazy" and s:
             c0 = self.C()
-            if c0 and c0 not in self.swc and not self.t(c0) and self.r.random() < 0.5:
+            zt = set()
+            if c0 and c0 not in self.swc and (not self.t(c0) or self.p.get("lazy_of_loops")) and self.r.random() < 0.5:
                 z = self.fresh("z"); L.append(f"lazy {z} {c0}")      # the new cell starts with a Lazy shared with c0
+                zt = self.t(c0)                                       # (possibly the Lazy of a CellLoop that is not closed yet)
             else:
                 z = self.fresh("z"); L.append(f"mklazy {z} {self.small()}")
-            n = self.fresh("c"); L.append(f"holdlazy {n} {s} {z}"); self.add_cell(n, self.t(s)); self.lazies.append(z); self.ustream[n] = self.ident.get(s, s)
+            n = self.fresh("c"); L.append(f"holdlazy {n} {s} {z}"); self.add_cell(n, self.t(s) | zt); self.lazies.append(z); self.ustream[n] = self.ident.get(s, s)
         elif kind == "once" and s:
             n = self.fresh("s"); L.append(f"once {n} {s}"); self.add_stream(n, self.t(s))
         elif kind == "updates" and c:
@@ -163,8 +165,10 @@ class Gen:
             n = self.fresh("c"); L.append(f"switchc {n} {c} {' '.join(cs)}"); self.add_cell(n, self.t(c, *cs)); self.swc.add(n)
         elif kind == "router" and s:
             rn = self.fresh("r"); L.append(f"router {rn} {s} {r.randint(0, 2)}"); self.routers.append((rn, s))
-            for _ in range(r.randint(1, 3)):
-                n = self.fresh("s"); L.append(f"route {n} {rn} {r.randint(0, 2)}"); self.add_stream(n, self.t(s))
+            keys = [r.randint(0, 2) for _ in range(r.randint(1, 3))]
+            if self.p.get("distinct_routes"): keys = list(dict.fromkeys(keys))
+            for key in keys:
+                n = self.fresh("s"); L.append(f"route {n} {rn} {key}"); self.add_stream(n, self.t(s))
         elif kind in ("sloop", "cloop"):
             return self.gen_loop(kind)
         else:
@@ -190,6 +194,8 @@ class Gen:
             L.append(f"cloopclose {n} {m}")
             if src:
                 t = self.r.choice(src)
+            elif self.p.get("no_const"):
+                t = self.fresh("c"); L.append(f"csink {t} {self.small()}"); self.add_cell(t); self.csinks.append(t)
             else:
                 t = self.fresh("c"); L.append(f"const {t} {self.small()}"); self.add_cell(t)
             L.append(f"cloopclose {m} {t}")
@@ -228,7 +234,10 @@ class Gen:
                 self.retaint(n, self.taint[t])
             else:
                 # an unlooped CellLoop must never be sampled: close it on a fresh constant
-                t = self.fresh("c"); L.append(f"const {t} {self.small()}"); self.add_cell(t); L.append(f"cloopclose {n} {t}")
+                t = self.fresh("c")
+                if self.p.get("no_const"): L.append(f"csink {t} {self.small()}"); self.csinks.append(t)
+                else: L.append(f"const {t} {self.small()}")
+                self.add_cell(t); L.append(f"cloopclose {n} {t}")
                 self.retaint(n, set())
         if pos_variation < 0.3 and made:
             # loop_ position inside the defining transaction: move the close right after the target's definition
@@ -247,7 +256,7 @@ class Gen:
         st = self.fresh("c"); L.append(f"hold {st} {n} {self.small()}"); self.add_cell(st, {n})
         cur = self.fresh("s"); L.append(f"snapshot {cur} {src} {st} {self.op()}"); self.add_stream(cur, self.t(src))
         for _ in range(r.randint(0, 3)):
-            k = r.choice(["map", "filter", "once", "gate", "orelse", "merge", "snapshot", "mapto"])
+            k = r.choice([x for x in ["map", "filter", "once", "gate", "orelse", "merge", "snapshot", "mapto"] if not (x == "once" and self.p.get("no_once"))])
             nx = self.fresh("s")
             if k in ("map", "filter", "mapto"): L.append(f"{k} {nx} {cur} {self.small()}")
             elif k == "once": L.append(f"once {nx} {cur}")
@@ -366,7 +375,14 @@ class Gen:
                 elif x in self.streams: self.ident[y] = x
                 if x in self.ustream: self.ustream[y] = self.ustream[x]
                 elif x in self.cells: self.ustream[y] = "u:" + x
+        if r.random() < p.get("drop_listeners", 0.0) and self.listeners:
+            l = r.choice(self.listeners)
+            if l not in self.dropped: L.append(f"drop {l}"); self.dropped.add(l)
+        if r.random() < p.get("drop_routers", 0.0) and self.routers:
+            rn = r.choice(self.routers)[0]
+            if rn not in self.dropped: L.append(f"drop {rn}"); self.dropped.add(rn)
         if r.random() < p["gcs"]: L.append("gc")
+        if r.random() < p.get("graphdumps", 0.0): L.append("graphdump")
         if r.random() < p.get("memchecks", 0.0): L.append("memcheck")
         if r.random() < p.get("wfchecks", 0.0): L.append("wfcheck")
         if r.random() < p["posts"] * 0.3 and self.cells: L.append(f"post {self.fresh('p')} {self.C()}")
@@ -418,6 +434,7 @@ class Gen:
                         w = l.split(); self.lines.append(f"{w[0]} {w[1]} {int(w[2]) + period % 3}")
                     self.lines.append("nodes")
         if p["malformed"]: self.malformed()
+        if p.get("graphdumps"): self.lines += ["gc", "graphdump"]
         if p["leakcheck"]: self.lines += ["leakcheck"]
         return self.lines
 
